@@ -170,6 +170,13 @@ def r2_structural_recursion(ctx, rule):
                     built = s.targets[0].id
                     facts['mask_join'] = U(s.value)
         rec = recs[0]
+        if built is None and kind == 'mask' and prints[0].args and rec.args and U(prints[0].args[0]) == U(rec.args[0]) \
+                and isinstance(rec.args[0], ast.Name) and any(isinstance(s, ast.Assign) and len(s.targets) == 1
+                                                               and U(s.targets[0]) == U(rec.args[0]) for s in lp.body):
+            # the re-cased guess is built in some other spelling: WHAT it is made of is C04.R3's question (mask_application);
+            # here it is enough that the same freshly built value is written in the base case and passed on otherwise
+            built = U(rec.args[0])
+            facts['mask_join'] = 'other spelling'
         rfacts = {'written': U(prints[0].args[0]) if prints[0].args else None, 'recursion': U(rec)}
         facts.update(rfacts)
         if built is None or U(prints[0].args[0]) != built or U(rec.args[0]) != built:
@@ -187,10 +194,129 @@ def r2_structural_recursion(ctx, rule):
     return ok_all
 
 
+def _mask_expression_form(fn, branch_body, multi):
+    """The capitalisation written as ONE expression (after helper inlining):
+           <prefix> + ''.join(<T>[i] if m == 'L' else <T>[i].upper() for i, m in enumerate(<mask>))      (or zip(<mask>, <T>))
+       with <prefix> = cur_guess[:-n], <T> = cur_guess[-n:], n = len of a mask of the chosen group.
+       Returns ('ok' | 'bad' | None, text): None when the branch is not of this form at all."""
+    assigns = {}
+    loops = [st for st in branch_body if isinstance(st, ast.For)]
+    scope = list(branch_body) + ([x for x in loops[0].body] if (multi and len(loops) == 1) else [])
+    for st in scope:
+        if isinstance(st, ast.Assign) and len(st.targets) == 1 and isinstance(st.targets[0], ast.Name):
+            if st.targets[0].id in assigns:
+                assigns[st.targets[0].id] = None
+            else:
+                assigns[st.targets[0].id] = st.value
+    if multi:
+        if len(loops) != 1 or not is_group_values(fn, assigns.get(U(loops[0].iter), loops[0].iter) if isinstance(loops[0].iter, ast.Name) else loops[0].iter) \
+                or not isinstance(loops[0].target, ast.Name):
+            return None, None
+        mask_name = loops[0].target.id
+    else:
+        mask_name = 'mask'
+
+    def res(e, depth=0):
+        while isinstance(e, ast.Name) and assigns.get(e.id) is not None and depth < 6:
+            e = assigns[e.id]
+            depth += 1
+        return e
+    target = None
+    for st in scope:
+        if isinstance(st, ast.Assign) and len(st.targets) == 1 and isinstance(st.targets[0], ast.Name) and isinstance(st.value, ast.BinOp) \
+                and isinstance(st.value.op, ast.Add) and isinstance(res(st.value.right), ast.Call) and U(res(st.value.right).func) == "''.join":
+            target = st
+    if target is None:
+        return None, None
+    txt = U(target.value)[:140]
+    prefix = res(target.value.left)
+    joined = res(target.value.right)
+    if len(joined.args) != 1 or not isinstance(joined.args[0], (ast.GeneratorExp, ast.ListComp)) or len(joined.args[0].generators) != 1 \
+            or joined.args[0].generators[0].ifs:
+        return None, None
+    gen = joined.args[0].generators[0]
+    elt = joined.args[0].elt
+
+    def nlen(e):
+        """n: len(<a mask of the chosen group>) or len(<the loop's mask>)"""
+        e = res(e)
+        if isinstance(e, ast.Call) and call_name(e) == 'len' and len(e.args) == 1:
+            a = res(e.args[0])
+            return U(a) == mask_name or is_group_values(fn, a, '[0]') or (isinstance(e.args[0], ast.Name) and e.args[0].id == mask_name)
+        return False
+
+    def is_slice(e, lower):
+        e = res(e)
+        if not (isinstance(e, ast.Subscript) and isinstance(e.slice, ast.Slice) and U(e.value) == 'cur_guess' and e.slice.step is None):
+            return None
+        b, other = (e.slice.lower, e.slice.upper) if lower else (e.slice.upper, e.slice.lower)
+        if other is not None or not (isinstance(b, ast.UnaryOp) and isinstance(b.op, ast.USub)):
+            return False
+        return bool(nlen(b.operand))
+    p_ok = is_slice(prefix, lower=False)
+    if p_ok is None:
+        return None, None
+    # the generator: enumerate(mask) with T[i], or zip(mask, T) / zip(T, mask) with the character itself
+    it = gen.iter
+    tail_expr = ch = pos = m = None
+    if isinstance(it, ast.Call) and call_name(it) == 'enumerate' and len(it.args) == 1 and U(res(it.args[0])) in (mask_name,) \
+            and isinstance(gen.target, ast.Tuple) and len(gen.target.elts) == 2 and all(isinstance(x, ast.Name) for x in gen.target.elts):
+        pos, m = gen.target.elts[0].id, gen.target.elts[1].id
+    elif isinstance(it, ast.Call) and call_name(it) == 'zip' and len(it.args) == 2 and isinstance(gen.target, ast.Tuple) \
+            and len(gen.target.elts) == 2 and all(isinstance(x, ast.Name) for x in gen.target.elts):
+        names = [x.id for x in gen.target.elts]
+        if U(res(it.args[0])) == mask_name:
+            m, ch, tail_expr = names[0], names[1], it.args[1]
+        elif U(res(it.args[1])) == mask_name:
+            m, ch, tail_expr = names[1], names[0], it.args[0]
+        else:
+            return None, None
+    else:
+        return None, None
+    if not isinstance(elt, ast.IfExp):
+        return None, None
+    t = U(elt.test)
+    if t == "%s == 'L'" % m:
+        keep, up = elt.body, elt.orelse
+    elif t in ("%s != 'L'" % m, "%s == 'U'" % m):
+        keep, up = elt.orelse, elt.body
+    else:
+        return 'bad', 'mask character test %s in %s' % (t, txt)
+
+    def char_of(e):
+        """-> the tail expression this character is taken from (enumerate form) or True (zip form), None if it is something else"""
+        if ch is not None:
+            return True if (isinstance(e, ast.Name) and e.id == ch) else None
+        if isinstance(e, ast.Subscript) and not isinstance(e.slice, ast.Slice) and U(e.slice) == pos:
+            return e.value
+        return None
+    k_src = char_of(keep)
+    if not (isinstance(up, ast.Call) and isinstance(up.func, ast.Attribute) and up.func.attr == 'upper' and not up.args):
+        return 'bad', 'the other mask letters give %s in %s' % (U(up)[:40], txt)
+    u_src = char_of(up.func.value)
+    if k_src is None or u_src is None:
+        return 'bad', 'mask characters mapped to %s / %s in %s' % (U(keep)[:40], U(up)[:40], txt)
+    tails = [tail_expr] if ch is not None else [k_src, u_src]
+    t_ok = all(is_slice(x, lower=True) for x in tails)
+    if any(is_slice(x, lower=True) is None for x in tails):
+        return None, None
+    if not p_ok or not t_ok:
+        return 'bad', 'slices in ' + txt
+    return 'ok', txt
+
+
 def mask_application(ctx, rule, qual, branch_body, multi, strict_char_map=True):
     """C branch: complement slices with n = len(group value), per-character map L -> same, U -> .upper()."""
     fn = ctx.repo.fn(qual)
     facts = {}
+    verdict, txt = _mask_expression_form(fn, branch_body, multi)
+    if verdict == 'ok':
+        ctx.ok(rule, qual, 'mask applied in one expression: cur_guess[:-n] + per-character map of cur_guess[-n:] (L keeps, else upper())', {'expression': txt})
+        return True
+    if verdict == 'bad':
+        ctx.bad(rule, qual, txt, "the mask applies to the last len(mask) characters: prefix cur_guess[:-n] kept, each character of cur_guess[-n:] "
+                "kept for 'L' and upper-cased on its own otherwise", {'expression': txt}, fn)
+        return False
     assigns = {}
     for s in branch_body:
         if isinstance(s, ast.Assign) and len(s.targets) == 1 and isinstance(s.targets[0], ast.Name):
@@ -198,7 +324,10 @@ def mask_application(ctx, rule, qual, branch_body, multi, strict_char_map=True):
     ok = True
     ml = assigns.get('mask_len')
     facts['mask_len'] = U(ml) if ml is not None else None
-    if ml is None or not (isinstance(ml, ast.Call) and call_name(ml) == 'len' and len(ml.args) == 1 and is_group_values(fn, ml.args[0], '[0]')):
+    if ml is None:
+        ctx.unk(rule, qual, 'the capitalisation branch does not bind the mask length in a form this rule knows')
+        return False
+    if not (isinstance(ml, ast.Call) and call_name(ml) == 'len' and len(ml.args) == 1 and is_group_values(fn, ml.args[0], '[0]')):
         ok = False
         ctx.bad(rule, qual, 'mask_len = %s' % facts['mask_len'], 'the mask length must be taken from a mask of the chosen '
                 'group (all masks of a length-indexed file have the same length)', facts, fn)
@@ -216,6 +345,9 @@ def mask_application(ctx, rule, qual, branch_body, multi, strict_char_map=True):
     s_lo, s_hi = slice_of(sw) if sw is not None else ('x', 'x')
     e_lo, e_hi = slice_of(ew) if ew is not None else ('x', 'x')
     want = Lin({'mask_len': -1}, 0)
+    if sw is None or ew is None:
+        ctx.unk(rule, qual, 'the kept prefix / re-cased tail of the guess are not bound in a form this rule knows')
+        return False
     if not (s_lo is None and s_hi == want and e_lo == want and e_hi is None):
         ok = False
         ctx.bad(rule, qual, 'slices start=%s end=%s' % (facts['start_word'], facts['end_word']),
